@@ -117,7 +117,8 @@ pub enum CircuitError {
 impl Circuit {
     /// Checks that the circuit only has valid instructions, has inputs andoutputs.
     pub fn validate(&self) -> Result<(), CircuitError> {
-        let max_reg = Reg(self.max_reg_count.saturating_sub(1) as u32);
+        // a register is valid if it is below the declared register count (which may be 0):
+        let is_invalid_reg = |r: Reg| r.0 as usize >= self.max_reg_count;
         if self.input_regs.iter().all(|i| *i == 0) {
             return Err(CircuitError::EmptyInputs);
         }
@@ -126,7 +127,7 @@ impl Circuit {
             return Err(CircuitError::EmptyOutputs);
         }
         for &o in self.output_regs.iter() {
-            if o > max_reg {
+            if is_invalid_reg(o) {
                 return Err(CircuitError::InvalidOutput(o));
             }
         }
@@ -136,17 +137,22 @@ impl Circuit {
 
         let mut register_set = vec![false; self.max_reg_count];
         for (i, inst) in self.insts.iter().enumerate() {
-            if inst.out > max_reg {
+            if is_invalid_reg(inst.out) {
                 return Err(CircuitError::InvalidInst(i));
             }
             match inst.op {
-                Op::Input(_) => {
+                Op::Input(Input { party, input }) => {
                     if i != inst.out.0 as usize {
                         return Err(CircuitError::InvalidInput(i, *inst));
                     }
+                    // the input must exist, otherwise the evaluation would index out of bounds:
+                    match self.input_regs.get(party as usize) {
+                        Some(&inputs_of_party) if (input as usize) < inputs_of_party => {}
+                        _ => return Err(CircuitError::InvalidInput(i, *inst)),
+                    }
                 }
                 Op::Xor(Xor(x, y)) | Op::And(And(x, y)) => {
-                    if x > max_reg || y > max_reg {
+                    if is_invalid_reg(x) || is_invalid_reg(y) {
                         return Err(CircuitError::InvalidInst(i));
                     }
                     if !register_set[x] {
@@ -157,7 +163,7 @@ impl Circuit {
                     }
                 }
                 Op::Not(Not(x)) => {
-                    if x > max_reg {
+                    if is_invalid_reg(x) {
                         return Err(CircuitError::InvalidInst(i));
                     }
                     if !register_set[x] {
@@ -166,6 +172,12 @@ impl Circuit {
                 }
             }
             register_set[inst.out] = true;
+        }
+        // the outputs are read at the end of the evaluation, so they must have been set as well:
+        for &o in self.output_regs.iter() {
+            if !register_set[o] {
+                return Err(CircuitError::InvalidRegAccess(self.insts.len(), o));
+            }
         }
 
         Ok(())
